@@ -12,7 +12,7 @@ CHECKS = {
         category="model_checking",
         engine="E2 + H1",
         technique="stateless schedule exploration (hand-rolled, CHESS style): all await-point interleavings of k client tasks against the real Clock actor, re-execution from choice prefixes, deviation-bounded for k=3",
-        text="k=2 client tasks with 2-4 calls each (get_time / register_ts of stamps in the same tick, 1 s ahead, near the drift limit, beyond it, with the clock's own node id, with counters in the actor's back-pressure region), plus a saturated clock (one task with 1000 requests in flight, the capacity of the actor's queue, racing with register_ts + get_time) are explored over ALL interleavings of their await points; k=3 up to 2 (quick) / 6 (thorough) deviations, in fine-grained mode (one poll of one task - a caller or the clock actor - per step, runtime event_interval 1); three injected wall-clock behaviours (stalled, ticking, jumping backwards). Every execution is checked: stamps pairwise distinct, strictly increasing per task, every get_time invoked after a register_ts returned exceeds the registered stamp unless it was beyond the drift limit. Every 97th execution is run twice and must reproduce.",
+        text="k=2 client tasks with 2-4 calls each (get_time / register_ts of stamps in the same tick, 1 s ahead, near the drift limit, beyond it, with the clock's own node id, with counters in the actor's back-pressure region), plus a saturated clock (one task with 1000 requests in flight, the capacity of the actor's queue, racing with register_ts + get_time) and cancelled get_time requests (future dropped after being queued) are explored over ALL interleavings of their await points; k=3 up to 2 (quick) / 6 (thorough) deviations, in fine-grained mode (one poll of one task - a caller or the clock actor - per step, runtime event_interval 1); three injected wall-clock behaviours (stalled, ticking, jumping backwards). Every execution is checked: stamps pairwise distinct, strictly increasing per task, every get_time invoked after a register_ts returned exceeds the registered stamp unless it was beyond the drift limit. Every 97th execution is run twice and must reproduce.",
         note="Current-thread runtime, await-point granularity. Multi-threaded runtimes are argued equivalent to some FIFO enqueue order into the actor's channel (DESIGN.md), not explored.",
         design="DESIGN.md section 3, C11",
     ),
@@ -44,7 +44,7 @@ CHECKS = {
         category="fault_enumeration",
         engine="E3 (turmoil, separate binary vsim)",
         technique="exhaustive enumeration of fault scripts (hold/release/partition/repair at 16 decision instants, <=1 event quick / <=2 thorough) over the real hyper/h2 client and server on turmoil's simulated network with fixed latency and seeded RNG; every run repeated for reproducibility; workers in child processes",
-        text="Workloads: three sequential requests; two concurrent first requests on a fresh channel; three concurrent requests on a warmed-up connection; one 1 MiB request (multi-chunk bodies); 9 sets of concurrent large replies (45-75 KB together, against the 64 KiB HTTP/2 connection window); 9 variants of typed requests issued while a 20-55 KB raw-body download on the same channel is left unread (replies then start with a short frame and continue after the window update). Handler delays 0 / 0.5 s / 3 s, client timeout 2 s or none. For every script and combination each request must return Ok(id*10) for its own id with its payload echo intact, or a ConnectionError/Timeout status, nothing else and no panic; the handler runs at most once per id; with a timeout configured the call returns within 2 s (+5 ms) of simulated time. A simulation that aborts the process is isolated in a child process and reported as a violation.",
+        text="Workloads: three sequential requests; two concurrent first requests on a fresh channel; three concurrent requests on a warmed-up connection; one 1 MiB request (multi-chunk bodies); 9 sets of concurrent large replies (45-75 KB together, against the 64 KiB HTTP/2 connection window); 9 variants of typed requests issued while a 20-55 KB raw-body download on the same channel is left unread (replies then start with a short frame and continue after the window update); the sequential and warm-concurrent workloads once more through send_owned. Handler delays 0 / 0.5 s / 3 s, client timeout 2 s or none. For every script and combination each request must return Ok(id*10) for its own id with its payload echo intact, or a ConnectionError/Timeout status, nothing else and no panic; the handler runs at most once per id; with a timeout configured the call returns within 2 s (+5 ms) of simulated time. A simulation that aborts the process is isolated in a child process and reported as a violation.",
         note="turmoil 0.4 model: hold delays, partition drops without retransmission. A request without client timeout that never completes is an allowed outcome. turmoil 0.4's own TcpStream::poll_read panics when a segment does not fit the reader's buffer; scenarios that hit it are counted (<=5% by a guard) and not judged.",
         design="DESIGN.md section 3, C14",
     ),
@@ -76,7 +76,7 @@ CHECKS = {
         category="fault_enumeration",
         engine="E1 Layer B cluster",
         technique="exhaustive enumeration of layouts x issuer x level x operation kind x prior selection x every assignment of {ack, request lost, reply lost, storage failure} to the other nodes, executed through the public store handle on a real in-process cluster",
-        text="5 (quick) / 11 (thorough) layouts of 2-4 nodes in 1-3 data centres, every issuer, all 8 levels, 2/4 operation kinds, fresh and pre-advanced selector cursors, all 5^(N-1) fault assignments ({ack, request lost, reply lost, storage failure, storage failure after the first document of a bulk call}). At the moment the call returns every node's storage is read: Ok implies the issuer and at least the required number of other nodes (and per-DC majorities) hold the write or a newer one; a consistency error must report exactly the number of replicas that applied the write and had their reply delivered, the local write must be in place, and after the faults clear a batch flush plus a repair round must bring it to every node.",
+        text="5 (quick) / 11 (thorough) layouts of 2-4 nodes in 1-3 data centres (plus 6-, 7-, 8- and 9-node clusters with at most two non-acknowledging nodes), every issuer, all 8 levels, 2/4 operation kinds, fresh and pre-advanced selector cursors, all 5^(N-1) fault assignments ({ack, request lost, reply lost, storage failure, storage failure after the first document of a bulk call}). At the moment the call returns every node's storage is read: Ok implies the issuer and at least the required number of other nodes (and per-DC majorities) hold the write or a newer one; a consistency error must report exactly the number of replicas that applied the write and had their reply delivered, the local write must be in place, and after the faults clear a batch flush plus a repair round must bring it to every node.",
         note="The issuer's own storage does not fail. Selection failures are only checked to be justified (C15 decides selection).",
         design="DESIGN.md section 3, C06",
     ),
@@ -84,8 +84,8 @@ CHECKS = {
         category="model_checking",
         engine="E1 by replay, Layer B single node",
         technique="explicit-state BFS by history replay on the real keyspace actor with a fault-injecting storage wrapper; state = (decoded Serialize reply, store rows); agreement oracle after every request",
-        text="Requests Set/Del/MultiSet (one document, none, pairs incl. the same id twice in both stamp orders)/MultiDel/PurgeDeletes with stamps from a grid with >1h gaps, two origins, both sources, any arrival order, and per storage call the answers ok / fail-before / fail-after-k / fail-only-document-i (exactly the written ids reported; the last is a non-prefix partial failure) are sent to the real actor through its mailbox. After every request, successful or failed, live ids+stamps of the set must equal the store's documents, tombstones must equal the store's tombstones, and stored bytes must belong to the write whose stamp the row carries. Depth 3 on a harness map store and depth 2 on MemStore (quick), depth 4/3 (thorough).",
-        note="Bulk calls with a duplicated id are not combined with partial storage failure (contract ambiguity). Single-document storage calls fail atomically.",
+        text="Requests Set/Del/MultiSet (one document, none, pairs incl. the same id twice in both stamp orders, the same id twice followed by another document)/MultiDel/PurgeDeletes with stamps from a grid with >1h gaps, two origins, both sources, any arrival order, and per storage call the answers ok / fail-before / fail-after-k / fail-only-document-i (exactly the written ids reported; the last is a non-prefix partial failure) are sent to the real actor through its mailbox. After every request, successful or failed, live ids+stamps of the set must equal the store's documents, tombstones must equal the store's tombstones, and stored bytes must belong to the write whose stamp the row carries. Depth 3 on a harness map store and depth 2 on MemStore (quick), depth 4/3 (thorough).",
+        note="Single-document storage calls fail atomically. (A duplicated id combined with a partial bulk failure used to be excluded as contract-ambiguous; including it exposed defect F15, fixed in 9588667.)",
         design="DESIGN.md section 3, C02",
     ),
     "C18": dict(
